@@ -180,9 +180,9 @@ def expand_states(args):
                 continue
             agg.transitions += 1
             agg.evals += 1
+            c = driver.canon(w2)            # before the monitor: the monitor's own reads may fill caches
             driver.check(w2, pre, ev, out, agg, h2)
             agg.compared += 1
-            c = driver.canon(w2)
             succ.append((h2, state_hash(c)))
             if variants is not None:
                 # environment deviations discovered while executing ev (e.g. identity-reuse choices)
